@@ -424,6 +424,9 @@ func checkC17(c *Ctx) {
 			if !ok {
 				return
 			}
+			if call, isCall := stripConv(ta.X).(*ssa.Call); isCall && CalleeName(call) == "(*sync.Pool).Get" {
+				return // the pool's own New decides the dynamic type; not an option value
+			}
 			nAss++
 			if !ta.CommaOk {
 				panicking = append(panicking, p.InstrPos(ta)+": "+p.FuncKey(fn)+" asserts "+ta.AssertedType.String()+" without the comma-ok form (an unexpected YAML type panics at start-up or per request)")
@@ -749,38 +752,80 @@ func (c *Ctx) mainFatal() {
 func (c *Ctx) factoriesFail() {
 	p := c.P
 	n := 0
-	for _, fn := range p.Funcs {
+	inPlugins := func(fn *ssa.Function) bool {
 		pk := fnPkg(fn)
-		if pk == nil || !strings.HasSuffix(pk.Pkg.Path(), "/internal/plugins") {
+		return pk != nil && strings.HasSuffix(pk.Pkg.Path(), "/internal/plugins")
+	}
+	// option values come out of map[string]interface{}: the asserted operand is an empty interface
+	assertsOption := func(fn *ssa.Function) bool {
+		has := false
+		instrsOf(fn, func(in ssa.Instruction) {
+			if ta, ok := in.(*ssa.TypeAssert); ok && ta.CommaOk {
+				if it, ok := ta.X.Type().Underlying().(*types.Interface); ok && it.NumMethods() == 0 {
+					if call, isCall := stripConv(ta.X).(*ssa.Call); isCall && CalleeName(call) == "(*sync.Pool).Get" {
+						return
+					}
+					has = true
+				}
+			}
+		})
+		return has
+	}
+	// converters: helpers that assert an option value and report success as a trailing bool
+	converters := map[*ssa.Function]bool{}
+	for _, fn := range p.Funcs {
+		if !inPlugins(fn) || !assertsOption(fn) {
+			continue
+		}
+		rs := fn.Signature.Results()
+		if rs.Len() >= 2 && types.Identical(rs.At(rs.Len()-1).Type(), types.Typ[types.Bool]) {
+			converters[fn] = true
+		}
+	}
+	// the tested "did the option have an acceptable type" bit and the option value it is about
+	okBit := func(cond ssa.Value) (ssa.Value, bool) {
+		e, ok := cond.(*ssa.Extract)
+		if !ok {
+			return nil, false
+		}
+		switch t := e.Tuple.(type) {
+		case *ssa.TypeAssert:
+			if e.Index == 1 {
+				return t.X, true
+			}
+		case *ssa.Call:
+			if f := StaticFn(t); f != nil && converters[f] && e.Index == f.Signature.Results().Len()-1 && len(t.Call.Args) > 0 {
+				return t.Call.Args[0], true
+			}
+		}
+		return nil, false
+	}
+	for _, fn := range p.Funcs {
+		if !inPlugins(fn) {
 			continue
 		}
 		sig := fn.Signature
 		if sig.Results().Len() == 0 || sig.Results().At(sig.Results().Len()-1).Type().String() != "error" {
 			continue
 		}
-		hasAssert := false
-		instrsOf(fn, func(in ssa.Instruction) {
-			if ta, ok := in.(*ssa.TypeAssert); ok && ta.CommaOk {
-				hasAssert = true
+		uses := assertsOption(fn)
+		for _, ci := range callsIn(fn) {
+			if f := StaticFn(ci); f != nil && converters[f] {
+				uses = true
 			}
-		})
-		if !hasAssert {
+		}
+		if !uses {
 			continue
 		}
 		n++
 		errIdx := sig.Results().Len() - 1
 		sp := &Spec{Cond: func(in *ssa.If, fr *Frame) string {
-			if e, ok := in.Cond.(*ssa.Extract); ok {
-				if _, isTA := e.Tuple.(*ssa.TypeAssert); isTA && e.Index == 1 {
-					return "assert-ok " + p.Desc(in.Cond, fr)
-				}
+			cond := in.Cond
+			if u, ok := cond.(*ssa.UnOp); ok {
+				cond = u.X
 			}
-			if u, ok := in.Cond.(*ssa.UnOp); ok {
-				if e, ok := u.X.(*ssa.Extract); ok {
-					if _, isTA := e.Tuple.(*ssa.TypeAssert); isTA && e.Index == 1 {
-						return "assert-ok " + p.Desc(in.Cond, fr)
-					}
-				}
+			if _, ok := okBit(cond); ok {
+				return "assert-ok " + p.Desc(in.Cond, fr)
 			}
 			return ""
 		}, Expand: func(*ssa.Function, ssa.CallInstruction) bool { return false }}
@@ -801,8 +846,9 @@ func (c *Ctx) factoriesFail() {
 						cond = u.X
 						pol = !pol
 					}
-					ta := cond.(*ssa.Extract).Tuple.(*ssa.TypeAssert)
-					failedOn[ta.X] = append(failedOn[ta.X], pol)
+					if v, ok := okBit(cond); ok {
+						failedOn[v] = append(failedOn[v], pol)
+					}
 				}
 				for v, res := range failedOn {
 					any := false
@@ -812,11 +858,7 @@ func (c *Ctx) factoriesFail() {
 						}
 					}
 					if !any {
-						d := p.Desc(v, nil)
-						if strings.Contains(d, "Hijacker") || strings.Contains(d, "Flusher") || strings.Contains(d, "ResponseWriter") {
-							continue
-						}
-						return "an option value of an unexpected type is accepted (no assertion on " + d + " succeeded, yet no error is returned)"
+						return "an option value of an unexpected type is accepted (no assertion on " + p.Desc(v, nil) + " succeeded, yet no error is returned)"
 					}
 				}
 				return ""
@@ -879,4 +921,141 @@ func (c *Ctx) rejectionStops() {
 			})
 	}
 	c.Floor("rejection-stops-chain", n, 8, "delegating HTTP handlers")
+	c.credentialNonEmpty()
+}
+
+// credentialNonEmpty: a plugin that admits a request because a request header equals a configured
+// secret must have refused, at construction, the empty secret — for the very value it compares with
+// (a value normalised after the emptiness check can be empty again, and then a request without the
+// header is admitted).
+func (c *Ctx) credentialNonEmpty() {
+	p := c.P
+	n := 0
+	for _, fn := range p.Funcs {
+		pk := fnPkg(fn)
+		if pk == nil || !strings.HasSuffix(pk.Pkg.Path(), "/internal/plugins") || fn.Parent() == nil {
+			continue
+		}
+		instrsOf(fn, func(in ssa.Instruction) {
+			ifi, ok := in.(*ssa.If)
+			if !ok {
+				return
+			}
+			b, ok := ifi.Cond.(*ssa.BinOp)
+			if !ok || (b.Op != token.EQL && b.Op != token.NEQ) {
+				return
+			}
+			var secret ssa.Value
+			for _, pair := range [][2]ssa.Value{{b.X, b.Y}, {b.Y, b.X}} {
+				if call, isCall := stripConv(pair[0]).(*ssa.Call); isCall && CalleeName(call) == "(net/http.Header).Get" {
+					if strings.Contains(p.Desc(call.Call.Args[0], nil), "http.Request.Header") {
+						secret = stripConv(pair[1])
+					}
+				}
+			}
+			if secret == nil {
+				return
+			}
+			if _, isConst := secret.(*ssa.Const); isConst {
+				return
+			}
+			n++
+			construct := p.FuncKey(fn) + "/header-equals-secret"
+			// resolve the compared value through the closure bindings up to the factory
+			v, owner := secret, fn
+			if ld, isLoad := v.(*ssa.UnOp); isLoad {
+				v = ld.X // captured variables are cells
+			}
+			for hops := 0; hops < 4; hops++ {
+				fv, isFree := v.(*ssa.FreeVar)
+				if !isFree || owner.Parent() == nil {
+					break
+				}
+				idx := -1
+				for i, f := range owner.FreeVars {
+					if f == fv {
+						idx = i
+					}
+				}
+				var bound ssa.Value
+				instrsOf(owner.Parent(), func(pi ssa.Instruction) {
+					if mc, isMC := pi.(*ssa.MakeClosure); isMC && mc.Fn == ssa.Value(owner) && idx >= 0 && idx < len(mc.Bindings) {
+						bound = mc.Bindings[idx]
+					}
+				})
+				if bound == nil {
+					break
+				}
+				v, owner = bound, owner.Parent()
+			}
+			// v is now a value, or a variable cell, of the factory `owner`
+			if _, stillFree := v.(*ssa.FreeVar); stillFree {
+				c.Undecided("credential-nonempty", construct, p.InstrPos(ifi), "cannot resolve where the compared secret comes from")
+				return
+			}
+			cell, _ := v.(*ssa.Alloc)
+			isSecret := func(x ssa.Value) bool {
+				x = stripConv(x)
+				if cell == nil {
+					return x == v
+				}
+				ld, isLoad := x.(*ssa.UnOp)
+				return isLoad && ld.Op == token.MUL && ld.X == ssa.Value(cell)
+			}
+			// the secret must be tested non-empty in the factory on the way to every successful return,
+			// and (for a variable) not be assigned again after that test
+			tested := false
+			instrsOf(owner, func(oi ssa.Instruction) {
+				oif, isIf := oi.(*ssa.If)
+				if !isIf {
+					return
+				}
+				ob, isBin := oif.Cond.(*ssa.BinOp)
+				if !isBin || (ob.Op != token.EQL && ob.Op != token.NEQ) {
+					return
+				}
+				var other ssa.Value
+				if isSecret(ob.X) {
+					other = ob.Y
+				} else if isSecret(ob.Y) {
+					other = ob.X
+				} else {
+					return
+				}
+				if s, isStr := constStr(other); !isStr || s != "" {
+					return
+				}
+				nonEmpty := oif.Block().Succs[1] // EQL: the false edge means non-empty
+				if ob.Op == token.NEQ {
+					nonEmpty = oif.Block().Succs[0]
+				}
+				okAll := len(nonEmpty.Preds) == 1
+				instrsOf(owner, func(ri ssa.Instruction) {
+					switch r := ri.(type) {
+					case *ssa.Return:
+						if len(r.Results) == 2 && isConstNil(r.Results[1]) && !nonEmpty.Dominates(r.Block()) {
+							okAll = false
+						}
+					case *ssa.Store:
+						if cell != nil && r.Addr == ssa.Value(cell) && nonEmpty.Dominates(r.Block()) {
+							okAll = false // reassigned after the emptiness test
+						}
+					}
+				})
+				if okAll {
+					tested = true
+				}
+			})
+			var bad []string
+			if !tested {
+				bad = append(bad, "the secret compared with the request header ("+p.Desc(v, nil)+") is not the value whose emptiness the factory refuses (not tested, or normalised/reassigned after the test): an empty secret admits every request that lacks the header")
+			}
+			if len(bad) == 0 {
+				c.Pass("credential-nonempty", construct, p.InstrPos(ifi), "the compared secret is the value whose emptiness the factory refuses")
+			} else {
+				c.Fail("credential-nonempty", construct, p.InstrPos(ifi), bad[0], bad...)
+			}
+		})
+	}
+	c.Floor("credential-nonempty", n, 1, "header-equals-secret comparisons in plugins")
 }
